@@ -328,6 +328,7 @@ func (st *inlineState) tailBody(pk *packagesPkg, call *ast.CallExpr, h *FuncInfo
 			ai++
 		}
 	}
+	st.registerLitArgs(pk, h, call, body, fresh)
 	st.funcBody(pk, body, append(append([]*types.Func{}, stack...), h.Obj))
 	st.notes = append(st.notes, "new helper "+h.Name()+" in return position at "+st.p.Pos(call.Pos())+" read in place")
 	st.p.noteInlinedCall(call)
@@ -733,6 +734,7 @@ func (st *inlineState) instantiate(pk *packagesPkg, call *ast.CallExpr, h *FuncI
 	}
 	addP(h.Decl.Recv)
 	addP(h.Decl.Type.Params)
+	st.registerLitArgs(pk, h, call, body, fresh)
 	// nested helpers inside the copy
 	st.funcBody(pk, body, append(append([]*types.Func{}, stack...), h.Obj))
 
@@ -1698,6 +1700,23 @@ func (st *inlineState) registerLocalClosures(pk *packagesPkg, body *ast.BlockStm
 		return true
 	})
 	for _, c := range cands {
+		st.registerLit(pk, body, c.obj, c.fl, c.id)
+	}
+}
+
+// registerLit: the function literal fl is the value of variable obj (declared at id); when obj is only ever called inside
+// body, its calls are read in place.
+func (st *inlineState) registerLit(pk *packagesPkg, body *ast.BlockStmt, obj types.Object, fl *ast.FuncLit, cid *ast.Ident) {
+	info := pk.TypesInfo
+	if st.localLit == nil {
+		st.localLit = map[types.Object]*types.Func{}
+	}
+	type cand struct {
+		obj types.Object
+		fl  *ast.FuncLit
+		id  *ast.Ident
+	}
+	for _, c := range []cand{{obj, fl, cid}} {
 		onlyCalled, nCalls := true, 0
 		var stack []ast.Node
 		ast.Inspect(body, func(n ast.Node) bool {
@@ -1773,4 +1792,31 @@ func (p *Prog) noteInlinedHelper(fn *types.Func) {
 		p.inlinedN = map[*types.Func]int{}
 	}
 	p.inlinedN[fn]++
+}
+
+// registerLitArgs: a function literal handed to the helper as an argument is read in place where the copy of the helper's
+// body calls the parameter (`c.transmit(func() (io.WriteCloser, error) { return c.cl.LMTPData(cb) }, hdr, body)`).
+func (st *inlineState) registerLitArgs(pk *packagesPkg, h *FuncInfo, call *ast.CallExpr, body *ast.BlockStmt, fresh map[types.Object]types.Object) {
+	info := pk.TypesInfo
+	ai := 0
+	for _, fld := range h.Decl.Type.Params.List {
+		if len(fld.Names) == 0 {
+			ai++
+			continue
+		}
+		for _, nm := range fld.Names {
+			if ai < len(call.Args) && nm.Name != "_" {
+				if fl, isLit := ast.Unparen(call.Args[ai]).(*ast.FuncLit); isLit {
+					o := info.Defs[nm]
+					if o != nil && !assignedOrAddressed(info, h.Decl.Body, o) {
+						if f := fresh[o]; f != nil {
+							o = f
+						}
+						st.registerLit(pk, body, o, fl, nm)
+					}
+				}
+			}
+			ai++
+		}
+	}
 }
